@@ -5342,7 +5342,7 @@ class CodegenCtx:
                 4: 2147483647,
                 8: (1 << 63)-1
             }.get(width, None)
-            if not signed:
+            if not signed and maxval is not None:
                 maxval += 1
         # TODO: customization point for non 32-bit machines
         if signed:
